@@ -2,7 +2,7 @@ import GramModel.Lemmas.ArmsTie
 import GramModel.Lemmas.Print
 import GramModel.Lemmas.PrintDerives
 import GramModel.Lemmas.PrintLex
-import GramModel.Lemmas.ParsePrinted7
+import GramModel.Lemmas.ParsePrinted12
 
 /-!
 # C16 — printed terms read back as the same term (the printer side)
@@ -602,9 +602,13 @@ example : ∃ (toks : Array PModel.PTok) (t : Tm), PModel.frag t = true ∧
      (.neg (.bin .sum (.var 0 0) (.var 1 0))) (.bin .prod (.var 2 0) (.lit 2)),
    by decide, by simp [Function.comp_def]⟩
 
-/-- The full statement (PENDING: proved above for `PModel.frag`; the packrat-level lemmas for binders, arrows and
-definitions — `binder_ok`, `binder_fail_close`, `ndpi_ok`, `let_ok`, `annot_jumbo`, `head_seq` — are proved in
-Lemmas/ParsePrinted*.lean, the induction cases for `lam`, `pi`, `letg` are not): the same for every printable term. -/
+/-- **The parse phase reads every printed term back**: the same for the whole printable class (no implicit
+non-dependent function type, no negative literal — the class of `C16_print_derives`): binders `(x : A) => b`,
+`{x : A} => b`, `(x : A) -> B`, `{x : A} -> B` (the annotation is the printed annotation, parenthesised and flagged `group`
+when it is a definition group), arrows `A -> B` (anonymous binder = the placeholder; an application as domain stays bare),
+definition groups (`x : A = d; …` — one nested `let` per definition, annotation and definition as printed operands).  The
+alternatives tried before the right one fail on the printed input: e.g. on `(x : A) -> B` `parse_annotated_lambda` parses up
+to `)` and fails at `->`; on a parenthesised definition group `(x : A = d; b)` both binder functions fail at `=`. -/
 def C16_parse_printed_stmt : Prop :=
   ∀ (toks : Array PModel.PTok) (I : List Char → Name) (nm : Name → List Char) (t : Tm),
     PrintDerives.noImplicitArrow t = true → PrintDerives.noNegLit t = true →
@@ -612,3 +616,102 @@ def C16_parse_printed_stmt : Prop :=
     ∃ r st, PModel.runParser toks = some (r, st) ∧ r.next = toks.size ∧ r.confident = true ∧
       PModel.collectErrors r.term = [] ∧ PModel.shape r.term = PModel.srcOf I nm t ∧
       PModel.SegT toks .term 0 toks.size r.term
+theorem C16_parse_printed : C16_parse_printed_stmt :=
+  fun toks I nm t h1 h2 h3 => PModel.parse_printed toks I nm t h1 h2 h3
+
+/-- non-vacuity: `if b : int = 5; b then (c : b) -> c d else {b : (b : int = 5; b)} => e -> b` is printable, and some
+token array has its printed kinds -/
+example : ∃ (toks : Array PModel.PTok) (t : Tm), PrintDerives.noImplicitArrow t = true ∧
+    PrintDerives.noNegLit t = true ∧
+    toks.toList.map (·.kind) = (PrintDerives.printKinds (fun n => [Char.ofNat (97 + n)]) t).map
+      (PModel.kindP (fun _ => 1)) :=
+  ⟨((PrintDerives.printKinds (fun n => [Char.ofNat (97 + n)])
+      (.ite (.letg (.cons 1 .int (.lit 5) .nil) (.var 1 0))
+        (.pi 2 false (.var 1 0) (.app (.var 2 0) (.var 3 0)))
+        (.lam 1 true (.letg (.cons 1 .int (.lit 5) .nil) (.var 1 0))
+          (.pi 0 false (.var 4 0) (.var 1 1))))).map
+      (fun k => (⟨PModel.kindP (fun _ => 1) k, ⟨0, 0⟩⟩ : PModel.PTok))).toArray,
+   .ite (.letg (.cons 1 .int (.lit 5) .nil) (.var 1 0))
+        (.pi 2 false (.var 1 0) (.app (.var 2 0) (.var 3 0)))
+        (.lam 1 true (.letg (.cons 1 .int (.lit 5) .nil) (.var 1 0))
+          (.pi 0 false (.var 4 0) (.var 1 1))),
+   by decide, by decide, by simp [Function.comp_def]⟩
+
+
+/-! ## Reading back, after the parse phase: re-association
+
+`PModel.IsChain s l`: `s` is the right-nested application chain (inner nodes not flagged `group`, any ranges, any error
+lists) of the operands `l` — the form in which `parse_application` / `parse_small_term` return `x₀ x₁ … xₙ`.
+`PModel.Ops l l'`: every operand is opaque to the applications pass (`RewriteMore.Opaque`) and the pass turns it into the
+corresponding element of `l'`.  `PModel.chainRes none [y₀, …, yₙ]` is the left-nested `((y₀ y₁) …) yₙ`;
+`RewriteMore.strip` forgets ranges, `group` flags and error lists. -/
+
+/-- **Application chains get their shape back.**  (i) Every node other than an unparenthesised chain node of the family is
+opaque to a re-association pass (with an accumulator the pass re-associates the subtree on its own, then applies the common
+tail).  (ii) `reassociate_applications` turns the right-nested chain of opaque operands into the left-nested application of
+the re-associated operands — started without accumulator, or inside a chain with accumulator `ac`: `((ac y₀) y₁) … yₙ`. -/
+def C16_chain_left_nested_stmt : Prop :=
+  (∀ (fam : PModel.Family) (r : PModel.SourceRange) (g : Bool) (v : PModel.SrcV) (es : List PModel.PErr),
+    g = true ∨ PModel.inFam fam v = false → RewriteMore.Opaque fam (.mk r g v es)) ∧
+  (∀ (s : PModel.Src) (l l' : List PModel.Src), PModel.IsChain s l → PModel.Ops l l' →
+    (PModel.reassoc .applications none s).map RewriteMore.strip =
+      some (PModel.chainRes none (l'.map RewriteMore.strip)) ∧
+    ∀ ac, (PModel.reassoc .applications (some (ac, .app)) s).map RewriteMore.strip =
+      some (PModel.chainRes (some (RewriteMore.strip ac)) (l'.map RewriteMore.strip)))
+theorem C16_chain_left_nested : C16_chain_left_nested_stmt :=
+  ⟨PModel.opaque_of, fun _ _ l' hc ho =>
+    ⟨PModel.reassoc_chain hc l' ho none (Or.inl rfl),
+     fun ac => PModel.reassoc_chain hc l' ho (some (ac, .app)) (Or.inr ⟨ac, rfl⟩)⟩⟩
+
+/-- non-vacuity: the chain `f a` of two identifiers -/
+example : ∃ (s : PModel.Src) (l l' : List PModel.Src), PModel.IsChain s l ∧ PModel.Ops l l' ∧ l.length = 2 :=
+  ⟨.mk ⟨0, 3⟩ false (.app (.mk ⟨0, 1⟩ false (.var 1) []) (.mk ⟨2, 3⟩ false (.var 2) [])) [],
+   [.mk ⟨0, 1⟩ false (.var 1) [], .mk ⟨2, 3⟩ false (.var 2) []],
+   [.mk ⟨0, 1⟩ false (.var 1) [], .mk ⟨2, 3⟩ false (.var 2) []],
+   .cons _ _ _ _ _ _ (.one _),
+   .cons ⟨PModel.opaque_of _ _ _ _ _ (Or.inr rfl), by rw [PModel.reassoc]; rfl⟩
+     (.cons ⟨PModel.opaque_of _ _ _ _ _ (Or.inr rfl), by rw [PModel.reassoc]; rfl⟩ .nil), rfl⟩
+
+/-- **`f a b` gets its shape back**: for a printable application `t` (printed `h a₁ … aₙ`, head bare when it is itself an
+application, every other operand through `group`), on any token array with the printed kinds the parse phase returns the
+right-nested chain of at least two operand trees whose shapes are `atomsOf I nm t`; every operand is opaque to
+`reassociate_applications`, which succeeds on it, and the pass returns the left-nested application of the re-associated
+operands (up to ranges, `group` flags, error lists). -/
+def C16_printed_application_left_nested_stmt : Prop :=
+  ∀ (toks : Array PModel.PTok) (I : List Char → Name) (nm : Name → List Char) (t : Tm),
+    PrintDerives.noImplicitArrow t = true → PrintDerives.noNegLit t = true → PrintDerives.isApp t = true →
+    toks.toList.map (·.kind) = (PrintDerives.printKinds nm t).map (PModel.kindP I) →
+    ∃ r st l l', PModel.runParser toks = some (r, st) ∧ PModel.IsChain r.term l ∧
+      l.map PModel.shape = PModel.atomsOf I nm t ∧ PModel.Ops l l' ∧ 2 ≤ l.length ∧
+      (PModel.reassociateApplications r.term).map RewriteMore.strip =
+        some (PModel.chainRes none (l'.map RewriteMore.strip))
+theorem C16_printed_application_left_nested : C16_printed_application_left_nested_stmt :=
+  fun toks I nm t h1 h2 h3 h4 => PModel.reassoc_printed_app toks I nm t h1 h2 h3 h4
+
+/-- non-vacuity: `f (g h) i` -/
+example : ∃ (toks : Array PModel.PTok) (t : Tm), PrintDerives.noImplicitArrow t = true ∧
+    PrintDerives.noNegLit t = true ∧ PrintDerives.isApp t = true ∧
+    toks.toList.map (·.kind) = (PrintDerives.printKinds (fun n => [Char.ofNat (97 + n)]) t).map
+      (PModel.kindP (fun _ => 1)) :=
+  ⟨((PrintDerives.printKinds (fun n => [Char.ofNat (97 + n)])
+      (.app (.app (.var 5 0) (.app (.var 6 0) (.var 7 0))) (.var 8 0))).map
+      (fun k => (⟨PModel.kindP (fun _ => 1) k, ⟨0, 0⟩⟩ : PModel.PTok))).toArray,
+   .app (.app (.var 5 0) (.app (.var 6 0) (.var 7 0))) (.var 8 0),
+   by decide, by decide, by decide, by simp [Function.comp_def]⟩
+
+/-- The whole round trip (PENDING — the parse phase is `C16_parse_printed`, the applications pass on chains is
+`C16_printed_application_left_nested`; not proved: the three passes on the whole tree and name resolution.  Checked by
+evaluation of the model on sample terms with binders, arrows, definition groups and operator chains.)  `PModel.readBack` =
+parse phase, the three re-association passes, `resolve_variables` in the scope `names` (outermost first), ranges forgotten;
+`PModel.scopedOK` = hole-free, every variable carries the de Bruijn index of its name in the scope, binder names are not the
+placeholder and not already in scope (gram's no-shadowing rule; the names of a definition group pairwise distinct), no empty
+definition group and no definition group directly as body of a definition group (both are printed like their flattening);
+`PModel.canon` replaces the name of every unused Π binder (it is not printed) by the placeholder.  The name table is
+invertible on the names used: `I (nm x) = x`. -/
+def C16_read_back_stmt : Prop :=
+  ∀ (toks : Array PModel.PTok) (I : List Char → Name) (nm : Name → List Char) (names : List Name) (t : Tm),
+    (∀ x, I (nm x) = x) → names.Nodup → (∀ x ∈ names, x ≠ PModel.placeholder) →
+    PModel.scopedOK names.reverse t = true →
+    PrintDerives.noImplicitArrow t = true → PrintDerives.noNegLit t = true →
+    toks.toList.map (·.kind) = (PrintDerives.printKinds nm t).map (PModel.kindP I) →
+    PModel.readBack toks names = some (PModel.canon t, [])
